@@ -1291,6 +1291,14 @@ pub struct Function {
     name: String,
 }
 
+#[cfg(mscript_verif)]
+impl Function {
+    /// Verification hook accessor (H3): the instructions of this function.
+    pub(crate) fn verif_instructions(&self) -> &[Instruction] {
+        &self.instructions
+    }
+}
+
 impl Debug for Function {
     fn fmt(&self, f: &mut std::fmt::Formatter<'_>) -> std::fmt::Result {
         let name = self.get_qualified_name();
